@@ -46,6 +46,7 @@ def random_runs(schema, rnd, tier):
 
 def plans():
     obs = metagen.battery(['sel', 'sel', 'sel', 'chk_id'], per_step=2, dup_eq=True)
+    obs_nav = metagen.battery(['nav', 'nav', 'sel', 'card'], per_step=2, dup_eq=True)
     return [
         {'name': 'spelling', 'schema': 'spelling', 'spec': 'SpecVal', 'alpha': {'new', 'set', 'del', 'link', 'delete'},
          'vals': VALS, 'bound': {'quick': {'Lk': 1, 'Kx': 1}, 'thorough': {'Lk': 2, 'Kx': 1}},
@@ -58,6 +59,10 @@ def plans():
          'random': random_runs},
         {'name': 'keywords', 'schema': 'keywords', 'model': False, 'bound': 2, 'opt': OPT, 'obs': obs,
          'random': random_runs},
+    ] + [
+        # class names under other spellings in navigation: directly, across an association class in one step, with phrases
+        {'name': name + '_nav', 'schema': name, 'model': False, 'bound': 2, 'opt': OPT, 'obs': obs_nav, 'random': random_runs}
+        for name in ('assoc_class', 'assoc_reflexive', 'reflexive_1m', 'subsuper')
     ]
 
 
